@@ -40,6 +40,28 @@ Control flow with exits (genpm; search loops of the matchers, C08/C09)
   helpers      `<fn>_loop<k>` / `<fn>_while<k>` : Nat → state → Res (state [× Option ret]) — the `Option` says whether the
                *function* returned from inside the loop; a `loop` without `break` returns the value itself;
                `<fn>_iter<k>` : List item → [Nat →] state → Res (state × iterator state [× Option ret]).
+Approximate matchers (genukk; Ukkonen, Myers single-word and block-based, C09/C10)
+  containers   `v[i][j] = e` / `op=` on a vector of vectors; `v.clear()`, `v.extend(repeat(x).take(n))`, `v.extend(a..b)` /
+               `(a..=b)`, `v.resize(n, x)` (`Rs.resize`), `v.truncate(n)`, `v.push(x)` where `v` is a variable, `self.f` or an
+               element `w[i]` of a vector of vectors (`[Vec<usize>; 2]` is a list of two lists: read row, write it back)
+  closures     a closure field as an abstract function: `let cost = &self.ukkonen.cost;` … `(cost)(a, b)` (key
+               `"self.ukkonen.cost"` in `abstract_fns`); the projection closure `|s| s.f` inside `v.last().map(|s| s.f)
+               .unwrap_or(d)` and `v.get(i).map(|s| s.f)`
+  word types   `word_types={"T": "w"}`: a generic unsigned word type whose width is a *parameter* `(w : Nat)` of every generated
+               function (`Rs.wrappingAdd w`, `Rs.not w`, `Rs.shl w`, `Rs.maxVal w`); `T::zero()`, `T::one()`, `T::max_value()`;
+               `type_paths={"T::DistType": "DistType"}`; literals of a word type: 0 and 1 only; `word_size::<T>()` = `w`;
+               `$ident` tokens (macro variables in pinned headers of `impl_myers!`)
+  structs      `structs={"State": [("pv","T"), ..]}`: a parameter `state: &mut State` is passed field by field and all its fields
+               are returned; `self.state.pv` paths as before; `Vec<State>` is a list of tuples, `v[i].dist` a projection;
+               calls of other translated functions with struct arguments (`calls={"self.myers.step": dict(args=["&mut State",
+               ..], self_args=[..], extra=["w","wd"], self_outs=[..])}`): the argument may be a struct parameter, a `self`
+               field, a local struct value or an element `v[i]` (read, call, written back); `for (x, y) in
+               xs.iter_mut().zip(ys)` (fold that rebuilds the prefix of `xs`); `within="impl … for Matches<…>"`
+  signed       with `signed_arith=True`: `cond as i8` (`Rs.ofBool`), checked `+` / `-` on signed bit patterns (`Rs.addI`,
+               `Rs.subI`), sign-extending casts (`Rs.sext`), comparisons through `Rs.toInt`; `x.to_usize().unwrap()`,
+               `D::from_usize(x).unwrap()` (`Rs.cvt`), `saturating_add`; semantics: `RbV/Basic/RsSemWord.lean`
+  control      `if let Some(x) = e {..} [else {..}]` as a statement (= `match`); a unit function ending in `if .. else ..`;
+               `shadow_fresh=True`: an inner `let` that shadows an outer variable gets a primed Lean name
 Output style: the monad `RbV.Rs.Res` (`ok | panic | fuel`, RbV/Basic/RsSem.lean), `do` blocks of `let x ← …` / `let x := …`
 with Rust's mutation expressed by shadowing, `for` loops as `List.foldlM` of a named body function over `List.range'` /
 the slice / `zipIdx`, `while` loops as named recursive helpers on fuel.  Loop helpers are named `<fn>_for<k>`,
@@ -3369,7 +3391,7 @@ unit(name="SrcHamming", props="property C09", file="src/alignment/distance.rs",
 UKK_COST = {"self.ukkonen.cost": dict(lean="cost", args=["u8", "u8"], ret="u32")}
 
 unit(name="SrcUkkonen", props="property C09", file="src/pattern_matching/ukkonen.rs",
-     imports=["RbV.Basic.RsSemBits"], aliases={"TextSlice": "&[u8]"},
+     imports=["RbV.Basic.RsSemBits", "RbV.Basic.RsSemWord"], aliases={"TextSlice": "&[u8]"},
      functions=[dict(name="Ukkonen::find_all_end", lean="findAllEnd",
                      header="pub fn find_all_end<'a, C, T>(&'a mut self, pattern: TextSlice<'a>, text: T, k: usize,) "
                             "-> Matches<'_, F, C, T::IntoIter> where C: Borrow<u8>, T: IntoIterator<Item = C>,",
